@@ -22,6 +22,7 @@ func c03(c *eng.Ctx, r *eng.Report) {
 		"R3.5 state commit then node-database commit, both error-checked, before success is reported and before the head moves (shared with C05 R5.4); " +
 		"R3.6 errors of batch writes and commits are consumed at every call site; R3.8 an entry leaves an account's flush set (dirtyStorage) only in updateTrie, as it is written to the storage trie; R3.7 the flag that makes Commit write an account's code blob is raised unconditionally (constant true) by every function that installs code bytes, lowered only in Commit after InsertBlob of those bytes, and never computed. " +
 		"R3.10 a node leaves the dirty-node cache only for a stated reason: uncache deletes the very key it was called with (the committed root, and its children by recursion over childs()), Cap deletes the oldest flush-list entry after having put it into the batch, dereference deletes a child whose reference count dropped to zero — no other function deletes from NodeDatabase.nodes, so nodes of a state that is committed to memory but not yet flushed cannot be dropped by flushing another one; " +
+		"R3.13 the account trie is committed once per block, by AccountDB.Commit, with the leaf callback that links each account's storage root and code to its leaf: every Commit call on AccountDB.trie sits in (*AccountDB).Commit and passes a non-nil callback — a commit without it (from IntermediateRoot, say) leaves the nodes clean, the later Commit never sees the leaves, and TrieDB().Commit(root) writes an account trie whose storage roots and code are not on disk; " +
 		"R3.12 the stored form of a branch node carries all 17 entries: in the serialisers of fullNode and rawFullNode (EncodeRLP and the trie-package helpers they call) the entry array is never narrowed to a part of itself — the 17th entry is the value stored at the branch, a key that is a proper prefix of another (storage keys are raw strings here) lives only there; " +
 		"R3.11 Commit removes an account from the trie only if it self-destructed or was written in this block and is empty: deleteAccountObject is reached only across the `suicided` or the `isDirty` outcome — an account that was merely read looks empty while its storage cache is cold (empty() does not look at the storage root), and deleting it drops the account and all its slots from the committed root; " +
 		"R3.9 an account object that was written is committed: every cached object is either in the dirty set Commit iterates or has its one-shot onDirty hook armed (the C04 rule R4.8 applied here: removal from the dirty set re-arms the hook or drops the object, a replaced dirty set comes with a replaced object cache, the hook is cleared only after it was called). " +
@@ -39,6 +40,7 @@ func c03(c *eng.Ctx, r *eng.Report) {
 	c03NodeCacheDeletes(c, r)
 	c03CommitDeletes(c, r)
 	c03AllSeventeen(c, r)
+	c03AccountTrieCommit(c, r)
 }
 
 func batchCalls(fn *ssa.Function, method string) []*ssa.Call {
@@ -662,4 +664,42 @@ func is17(t types.Type) bool {
 	}
 	a, ok := t.Underlying().(*types.Array)
 	return ok && a.Len() == 17
+}
+
+// c03AccountTrieCommit: see R3.13.
+func c03AccountTrieCommit(c *eng.Ctx, r *eng.Report) {
+	const rule = "R3.13"
+	r.Min(rule, 1)
+	n := 0
+	for _, fn := range c.PkgFuncs(acctPkg) {
+		for _, s := range eng.Sites(fn) {
+			nm := s.Name()
+			if !(strings.HasSuffix(nm, "Trie.Commit") || strings.HasSuffix(nm, "Trie).Commit")) {
+				continue
+			}
+			recv := s.Common().Value
+			args := s.Common().Args
+			if !s.Common().IsInvoke() {
+				if len(args) == 0 {
+					continue
+				}
+				recv, args = args[0], args[1:]
+			}
+			rv := eng.ResolveLocal(recv)
+			u, isU := rv.(*ssa.UnOp)
+			if !isU {
+				continue
+			}
+			if t, f := eng.FieldOf(u.X); f != "trie" || !strings.HasSuffix(t, "AccountDB") {
+				continue
+			}
+			n++
+			inCommit := strings.HasPrefix(eng.FuncName(fn), "(*storage/account.AccountDB).Commit")
+			hasLeaf := len(args) >= 1 && !eng.IsNilConst(args[0])
+			r.Check(inCommit && hasLeaf, rule, "account-trie-commit:"+eng.FuncName(fn), c.Pos(s.Pos()), "AccountDB.Commit commits the account trie with its leaf callback", fmt.Sprintf("%s commits the account trie (leaf callback present: %v): nodes committed without the callback are already clean when AccountDB.Commit runs, so storage roots and code are never linked to their account leaves — TrieDB().Commit(root) reports success having written only the account trie, and a cold open of that root finds no storage and no code for the accounts changed in the block", eng.FuncName(fn), hasLeaf))
+		}
+	}
+	if n == 0 {
+		r.Fail(rule, "account-trie-commit:none", "", "no Commit call on AccountDB.trie found: the rule has lost its anchor")
+	}
 }
